@@ -30,10 +30,11 @@ TRUSTED_BASE = [
 # ---------------------------------------------------------------------------------------------------
 PROPS = {
     'C03': dict(streams=['scale', 'conv']),
-    'C13': dict(streams=['scale']),
+    'C13': dict(streams=['scale', 'diatonic']),
     'C14': dict(streams=['chain']),
     'C15': dict(streams=['note', 'describe']),
     'C16': dict(streams=['dict', 'note']),
+    'C17': dict(streams=['scale', 'diatonic']),
 }
 
 class Infra(Exception):
